@@ -50,6 +50,9 @@ type c04Case struct {
 func c04Run(c c04Case) Outcome {
 	var o Outcome
 	res := inBubble(theT, func() { o = c04RunInBubble(c, false) })
+	if o, stuck := stuckVerdict(res); stuck {
+		return o
+	}
 	if res.Panic != "" {
 		return viol("panic@"+topFrame(res.Stack), "%s\n%s", res.Panic, res.Stack)
 	}
@@ -447,6 +450,9 @@ type c04ClassCase struct {
 func c04ClassRun(c c04ClassCase) Outcome {
 	var o Outcome
 	res := inBubble(theT, func() { o = c04ClassInBubble(c) })
+	if o, stuck := stuckVerdict(res); stuck {
+		return o
+	}
 	if res.Panic != "" {
 		return viol("panic@"+topFrame(res.Stack), "%s\n%s", res.Panic, res.Stack)
 	}
